@@ -2,10 +2,12 @@
    Nothing but the property theorems; each is closed by [exact] of a lemma proved elsewhere.
    Model: RevId.v (ids), RevTree.v (db/revtree.go), DocModel.v (db/crud.go write path).
    A Go map is modelled by a list; "for every iteration order" = "for every permutation". *)
-From Coq Require Import Permutation.
+From Coq Require Import Permutation String.
+From SG Require Import Base.Bytes.
 From SG Require Import Base.Prelude C04.RevId C04.RevTree C04.DocModel C04.OrderProofs C04.WinnerProofs
   C04.WfProofs C04.FlagsProofs C04.PushProofs C04.PruneProofs C04.PruneLeaves C04.CodecProofs C04.DocProofs
-  C04.DocProofsPrune C04.TextIds.
+  C04.DocProofsPrune C04.TextIds
+  C04.History C04.HistoryProofs C04.PruneDeep C04.CodecX C04.CodecXProofs C04.Json C04.JsonProofs C04.JsonRoundTrip.
 Open Scope N_scope.
 
 (* ---- compareRevIDs: a total order, generation first, then byte-wise digest ---- *)
@@ -186,8 +188,9 @@ Theorem C04_prune_keeps_live_leaves : forall maxd t, wf t -> 1 <= maxd ->
 Proof. exact prune_keeps_live. Qed.
 Print Assumptions C04_prune_keeps_live_leaves.
 
-(* not proved (checked by the harness monitor prune_depth_bound on every pruned tree): after pruning no
-   node is more than maxd levels above its nearest leaf *)
+(* after pruning no node is more than maxd levels above its NEAREST leaf (the depth that
+   computeDepthsAndFindLeaves assigns).  Proved below as C04_prune_depth_bound (deepening round); the
+   harness monitor prune_depth_bound evaluates the same statement on every pruned tree. *)
 Definition C04_prune_depth_bound_full_statement : Prop := forall maxd t, wf t -> 1 <= maxd ->
   let t' := fst (prune maxd t) in
   forall r d, In r t' -> depth_of (depth_entries t') (rid r) = Some d -> d <= maxd.
@@ -203,6 +206,153 @@ Print Assumptions C04_codec_roundtrip.
 Theorem C04_codec_roundtrip_dangling : forall t, NoDup (map rid t) -> decode (encode t) = Some (snip t).
 Proof. exact codec_roundtrip_snip. Qed.
 Print Assumptions C04_codec_roundtrip_dangling.
+
+(* ======================= deepening round =======================
+   (2) pruneRevisions.  The Go function takes a third argument keepRev which its body never reads; that
+   nothing is lost by ignoring it is C04_prune_keeps_winner above (callers pass the current revision). *)
+Theorem C04_prune_depth_bound : C04_prune_depth_bound_full_statement.
+Proof. exact prune_depth_bound. Qed.
+Print Assumptions C04_prune_depth_bound.
+
+(* which leaves survive, exactly: all but the [doomed] ones = tombstoned leaves whose generation is more
+   than maxDepth below the shortest live branch (only when the tree has more than maxDepth revisions);
+   ids and tombstone bits of the survivors are unchanged, no leaf appears, the winner stays *)
+Theorem C04_prune_keeps_leaves_and_winner : forall maxd t, wf t -> 1 <= maxd ->
+  let t' := fst (prune maxd t) in
+  (forall l, In l (leaves t) -> doomed maxd t l = false -> exists l', In l' (leaves t') /\ idel l' = idel l) /\
+  (forall l', In l' (leaves t') -> exists l, In l (leaves t) /\ doomed maxd t l = false /\ idel l' = idel l) /\
+  (forall l, doomed maxd t l = true -> rdel l = true /\ shortest_live t <> None) /\
+  (forall l, In l (leaves t) -> rdel l = false -> doomed maxd t l = false) /\
+  w_id (winner_fold (leaves t')) = w_id (winner_fold (leaves t)) /\
+  w_exists (winner_fold (leaves t')) = w_exists (winner_fold (leaves t)) /\
+  w_active (winner_fold (leaves t')) = w_active (winner_fold (leaves t)).
+Proof. exact prune_keeps_leaves_and_winner. Qed.
+Print Assumptions C04_prune_keeps_leaves_and_winner.
+
+Theorem C04_prune_preserves_winner : forall maxd t, wf t -> 1 <= maxd ->
+  let t' := fst (prune maxd t) in
+  fst (fst (winning t')) = fst (fst (winning t)) /\ snd (winning t') = snd (winning t) /\
+  (snd (fst (winning t')) = true -> snd (fst (winning t)) = true).
+Proof. exact prune_preserves_winner. Qed.
+Print Assumptions C04_prune_preserves_winner.
+
+Theorem C04_prune_idempotent : forall maxd t, wf t -> 1 <= maxd ->
+  prune maxd (fst (prune maxd t)) = (fst (prune maxd t), 0).
+Proof. exact prune_idempotent. Qed.
+Print Assumptions C04_prune_idempotent.
+
+Theorem C04_prune_then_add_consistent : forall maxd t r p, wf t -> 1 <= maxd ->
+  rpar r = Some p -> gen p < gen (rid r) -> contains t (rid r) = false ->
+  let t' := fst (prune maxd t) in
+  is_leaf t' p = true ->
+  add t r = Some (r :: t) /\ add t' r = Some (r :: t') /\
+  let s := winner_fold (leaves (r :: t)) in
+  let s' := winner_fold (leaves (r :: t')) in
+  w_id s' = w_id s /\ w_exists s' = w_exists s /\ w_active s' = w_active s.
+Proof. exact prune_then_add_consistent. Qed.
+Print Assumptions C04_prune_then_add_consistent.
+
+(* (3) history queries.  [hist t i] = chain (length t) t i is what getHistory returns on a tree with
+   unique ids and increasing generations (C04_get_history_no_cycle_error). *)
+Theorem C04_get_history_no_cycle_error : forall t i, pre_wf t ->
+  get_history t i = (hist t i, false) /\ contains_cycles t = false.
+Proof. intros t i H. split; [apply get_history_pre_wf | apply wf_contains_no_cycles]; exact H. Qed.
+Print Assumptions C04_get_history_no_cycle_error.
+
+(* history_is_path_to_root_or_prune_point *)
+Theorem C04_history_is_path : forall t i, pre_wf t -> contains t i = true ->
+  let h := hist t i in
+  nth_error h 0 = Some i /\
+  (forall n x y, nth_error h n = Some x -> nth_error h (S n) = Some y ->
+     gen y < gen x /\ exists r, In r t /\ rid r = x /\ rpar r = Some y) /\
+  (forall n x, nth_error h n = Some x -> nth_error h (S n) = None ->
+     exists r, In r t /\ rid r = x /\ (rpar r = None \/ exists p, rpar r = Some p /\ contains t p = false)) /\
+  (forall n m x, nth_error h n = Some x -> nth_error h m = Some x -> n = m) /\
+  (length h <= length t)%nat.
+Proof. exact history_is_path. Qed.
+Print Assumptions C04_history_is_path.
+
+Theorem C04_history_after_prune : forall maxd t i, wf t ->
+  let t' := fst (prune maxd t) in
+  (exists rest, hist t i = hist t' i ++ rest) /\
+  (forall n x, nth_error (hist t' i) n = Some x -> nth_error (hist t' i) (S n) = None ->
+     exists r, In r t /\ rid r = x /\ (rpar r = None \/ exists p, rpar r = Some p /\ contains t' p = false)).
+Proof. exact history_after_prune. Qed.
+Print Assumptions C04_history_after_prune.
+
+Theorem C04_get_parent_is_second : forall t i, wf t -> get_parent t i = nth_error (hist t i) 1.
+Proof. exact get_parent_is_second. Qed.
+Print Assumptions C04_get_parent_is_second.
+
+Theorem C04_find_ancestor_sound_complete : forall t i A, wf t -> contains t i = true ->
+  (forall a, find_anc t i A = Some a <->
+     exists n, nth_error (hist t i) n = Some a /\ In a A /\
+       forall m x, (m < n)%nat -> nth_error (hist t i) m = Some x -> ~ In x A) /\
+  (find_anc t i A = None <-> forall x, In x (hist t i) -> ~ In x A).
+Proof. exact find_ancestor_sound_complete. Qed.
+Print Assumptions C04_find_ancestor_sound_complete.
+
+Theorem C04_find_ancestor_absent : forall t i A, contains t i = false ->
+  find_anc t i A = if mem_id A i then Some i else None.
+Proof. exact find_anc_absent. Qed.
+Print Assumptions C04_find_ancestor_absent.
+
+Theorem C04_is_ancestor_iff : forall t a d, wf t -> (is_ancestor t a d = true <-> ancestor t a d).
+Proof. exact is_ancestor_iff. Qed.
+Print Assumptions C04_is_ancestor_iff.
+
+(* (1) MarshalJSON / UnmarshalJSON with every persisted field, revTreeList level *)
+Theorem C04_struct_roundtrip_any_listing : forall t, NoDup (map xid t) -> (Z.of_nat (length t) <= max_int64)%Z ->
+  xdecode (xencode t) = DOk (xnorm t).
+Proof. exact xcodec_roundtrip_norm. Qed.
+Print Assumptions C04_struct_roundtrip_any_listing.
+
+Theorem C04_arrays_wf_iff : forall e, modern e ->
+  (arrays_wf e = true <-> exists t, xdecode e = DOk t /\ wf (strip t) /\ length t = length (l_revs e)).
+Proof. exact arrays_wf_iff. Qed.
+Print Assumptions C04_arrays_wf_iff.
+
+(* each malformed shape: error, runtime panic, or silent acceptance *)
+Theorem C04_decode_malformed_shapes :
+  (forall e, length (l_revs e) <> length (l_parents e) -> xdecode e = DErr) /\
+  (forall e, length (l_revs e) = length (l_parents e) -> l_chanmap e <> [] -> l_chans_old e <> [] -> xdecode e = DErr) /\
+  (forall e p, length (l_revs e) = length (l_parents e) -> (l_chanmap e = [] \/ l_chans_old e = []) ->
+     In p (l_parents e) -> (Z.of_nat (length (l_revs e)) <= p)%Z -> xdecode e = DPanic) /\
+  (forall e z, length (l_revs e) = length (l_parents e) -> (l_chanmap e = [] \/ l_chans_old e = []) ->
+     parents_ok e = true -> bodies_old_ok e = true -> In z (l_deleted e) \/ In z (l_att e) ->
+     idx_ok (length (l_revs e)) z = false -> xdecode e = DPanic) /\
+  (forall e t, xdecode e = DOk t ->
+     (length t <= length (l_revs e))%nat /\ (length t = length (l_revs e) <-> NoDup (l_revs e))) /\
+  (arrays_wf self_parent_arrays = false /\
+   exists t, xdecode self_parent_arrays = DOk t /\ strip t = [R (I 1 [97]) (Some (I 1 [97])) false] /\
+     snd (get_history (strip t) (I 1 [97])) = true /\ contains_cycles (strip t) = false).
+Proof.
+  split; [exact decode_length_mismatch|]. split; [exact decode_both_channel_fields|].
+  split; [exact decode_parent_out_of_range|]. split; [exact decode_index_out_of_range|].
+  split; [exact decode_duplicates_merged | exact decode_accepts_cycle].
+Qed.
+Print Assumptions C04_decode_malformed_shapes.
+
+(* byte level *)
+Theorem C04_parse_print_rtl : forall e, rtl_ascii e -> gens_ok e -> l_bodies_old e = None -> l_chans_old e = [] ->
+  parse_rtl (print_rtl e) = Some (canon e).
+Proof. exact parse_print_rtl. Qed.
+Print Assumptions C04_parse_print_rtl.
+
+Theorem C04_revtree_json_roundtrip : forall t t', xwf t -> Permutation t t' -> xascii t -> gens_le t ->
+  (Z.of_nat (length t) <= max_int64)%Z ->
+  decode_json (encode_json t') = Some (DOk t').
+Proof. exact revtree_json_roundtrip. Qed.
+Print Assumptions C04_revtree_json_roundtrip.
+
+Theorem C04_encode_deterministic_up_to_order : forall t t1 t2, xwf t -> xascii t -> gens_le t ->
+  (Z.of_nat (length t) <= max_int64)%Z -> Permutation t t1 -> Permutation t t2 ->
+  decode_json (encode_json t1) = Some (DOk t1) /\ decode_json (encode_json t2) = Some (DOk t2) /\
+  Permutation t1 t2 /\
+  encode_json (sort_tree t1) = encode_json (sort_tree t2) /\
+  decode_json (encode_json (sort_tree t1)) = Some (DOk (sort_tree t1)) /\ Permutation (sort_tree t1) t.
+Proof. exact encode_deterministic_up_to_order. Qed.
+Print Assumptions C04_encode_deterministic_up_to_order.
 
 (* ---- non-vacuity: a source forest with a conflict, a tombstone and an equal-generation tie ---- *)
 Definition ex_S : tree :=
@@ -224,3 +374,22 @@ Proof.
   split; [repeat constructor; intros i H; cbn in H; intuition (subst; cbn; lia)|].
   repeat split; vm_compute; reflexivity.
 Qed.
+
+(* deepening round: a tree with an inline body, an external body key, channels and an attachment flag;
+   its bytes; a history; a pruned tree to which a child is added *)
+Definition ex_X : xtree :=
+  [ X (R (I 3 [97]) (Some (I 2 [97])) true) (XI None [] [] false);
+    X (R (I 2 [98]) (Some (I 1 [97])) false) (XI (Some [123;125]) [] [[65]; [66]] true);
+    X (R (I 2 [97]) (Some (I 1 [97])) false) (XI None [107] [] false);
+    X (R (I 1 [97]) None false) (XI None [] [] false) ].
+
+Example C04_nonvacuous_deep :
+  strip ex_X = ex_S /\
+  encode_json ex_X = unB "{""revs"":[""3-a"",""2-b"",""2-a"",""1-a""],""parents"":[2,3,3,-1],""deleted"":[0],""bodymap"":{""1"":""{}""},""bodyKeyMap"":{""2"":""k""},""channelsMap"":{""1"":[""A"",""B""]},""hasAttachments"":[1]}" /\
+  decode_json (encode_json ex_X) = Some (DOk ex_X) /\
+  arrays_wf (xencode ex_X) = true /\
+  get_history ex_S (I 3 [97]) = ([I 3 [97]; I 2 [97]; I 1 [97]], false) /\
+  find_anc ex_S (I 3 [97]) [I 1 [97]; I 2 [98]] = Some (I 1 [97]) /\
+  doomed 1 ex_S (R (I 3 [97]) (Some (I 2 [97])) true) = false /\
+  prune 1 (fst (prune 1 ex_S)) = (fst (prune 1 ex_S), 0).
+Proof. repeat split; vm_compute; reflexivity. Qed.
